@@ -42,6 +42,8 @@ impl TaskEmitter {
     //@@ fn crates/ripd/src/tasks/mod.rs TaskEmitter::emit rules=R3
     //@@ sig
         requires self.wf(),
+        // the frame that takes the stream's next seq is handed to the truth log (a frame that is only broadcast would leave a gap there)
+        ensures exists|s: u64| reserved(self.task_id@, s) && #[trigger] offered(self.task_id@, s),      // [task_emit.the_frame_that_takes_the_next_seq_is_handed_to_the_truth_log]
     //@@ end
 }
 
